@@ -145,6 +145,9 @@ func (w *World) resolve(ref *SecretRef) string {
 			sec = ref.Lit
 		}
 		v = totpAt(sec, time.Now().Add(time.Duration(ref.Idx)*30*time.Second))
+	case "totp_again":
+		// the digits last submitted as a genuine TOTP code for account A
+		v = w.lastTOTP[ref.A]
 	case "totp_pending":
 		// code for the secret being enrolled in browser A's session (A = browser here)
 		if ref.A >= 0 && ref.A < len(w.Browsers) {
